@@ -498,7 +498,7 @@ def cmp_c10_stream(payload, impl, model):
 
 PROPS["C10"] = dict(
     coq="Properties_C10",
-    level_text="Proved in Coq (TranscodeProof.v) as compositions of the codec theorems over the lock-step pump model: JSON->CBOR is total on every text the reference reading accepts, consumes exactly one item and writes exactly the RFC 7049 encoding of the value tree read, which decodes to the same tokens up to CBOR's spelling of non-negative integers; it fails iff the reference reading fails. CBOR->JSON of a well-formed item in JSON's data model writes a text the decoder reads as the same tokens up to the documented normalisation (tags dropped, lengths -1, strings coerced to UTF-8, floats through the shortest-digits oracle), and fails iff the input is malformed or outside the data model (for any oracle). JSON->CBOR->JSON returns the same tokens for float-free valid-UTF-8 documents (unconditional) and for floats under the oracle hypothesis; CBOR->CBOR reproduces the tokens and is idempotent. Six natural over-strong variants are refuted by kernel-checked examples (non-string CBOR keys, the 32 MiB cap applying per chunk on reading but per item on re-reading, Int vs Uint, 1.0 -> 1). The library composition is tied to shared.TokenPump with both real codecs by the correspondence run (output bytes, consumed bytes), value preservation is re-checked independently in the harness, the slow route (Unmarshal into interface{} + Marshal) is compared by value, and the refmt CLI is run black-box on a sample and must produce the library's bytes.",
+    level_text="Proved in Coq (TranscodeProof.v) as compositions of the codec theorems over the lock-step pump model: JSON->CBOR is total on every text the reference reading accepts, consumes exactly one item and writes exactly the RFC 7049 encoding of the value tree read, which decodes to the same tokens up to CBOR's spelling of non-negative integers; it fails iff the reference reading fails. CBOR->JSON of a well-formed item in JSON's data model writes a text the decoder reads as the same tokens up to the documented normalisation (tags dropped, lengths -1, strings coerced to UTF-8, floats through the shortest-digits oracle), and fails iff the input is malformed or outside the data model (for any oracle). JSON->CBOR->JSON returns the same tokens for float-free valid-UTF-8 documents (unconditional) and for floats under the oracle hypothesis; CBOR->CBOR reproduces the tokens and is idempotent. Six natural over-strong variants are refuted by kernel-checked examples (non-string CBOR keys, the 32 MiB cap applying per chunk on reading but per item on re-reading, Int vs Uint, 1.0 -> 1). The library composition is tied to shared.TokenPump with both real codecs by the correspondence run (output bytes, consumed bytes), value preservation is re-checked independently in the harness, the slow route (Unmarshal into interface{} + Marshal) is compared by value, and the refmt CLI is run black-box on a sample and must produce the library's bytes. Streams (PumpStream.v): with one decoder and one encoder and Reset before each document, a stream of documents each of which transcodes on its own is transcoded document by document to the same outputs, each call consuming exactly its own document (CBOR sources: any documents; JSON sources: self-delimiting documents — a bare number needs a terminator, exhibited in the kernel); tied to the code by the tstream suite, which also places malformed documents between the others.",
     level_note="The CLI wiring and the slow route are checked by differential execution only (not modelled). Floats crossing to JSON use the shortest-digits oracle. Trusted: Coq kernel, extraction, driver, harness. No axioms.",
     rule="documents of both formats in all spellings, plus truncated ones; non-trivial = pump succeeded on an input of at least 2 bytes; distinct by payload",
     trusted_base=TB_COMMON,
@@ -1216,6 +1216,17 @@ def cmp_c01_autogen(payload, impl, model):
 _AUTOGEN_COMMON = dict(shrink=False, prepare=_prepare_autogen, replay_binary=_autogen_replay_binary, timeout=3600, harness_suite="autogen", model_suite="autogen",
                        nontrivial=lambda p, i, m: "(st " in p.split("|")[2])
 PROPS["C08"]["suites"].append(("autogen-order", dict(cmp=cmp_c08_autogen, what="generated struct families (incl. 13-40 field structs): field order of AutogenerateStructMapEntryUsingTags in the three sort modes vs Autogen.explore", **_AUTOGEN_COMMON)))
+
+
+def cmp_c13_autogen(payload, impl, model):
+    """C13 on autogenerated struct maps: the rendering of a value is accepted by a target of its type, field by field."""
+    r = cmp_c01_autogen(payload, impl, model)
+    if r and r.get("kind") == "violation":
+        r = dict(r, detail="a rendering of a value was not accepted into (or was misplaced in) a target of its own autogenerated type: " + r.get("detail", ""))
+    return r
+
+
+PROPS["C13"]["suites"].append(("autogen-accept", dict(cmp=cmp_c13_autogen, what="generated struct families (embedding to depth 4, by value and by pointer, tags, shadowing): the token rendering of each value unmarshalled through the autogenerated struct map into a target of the same type, field-wise oracle", **_AUTOGEN_COMMON)))
 PROPS["C01"]["suites"].append(("autogen-roundtrip", dict(cmp=cmp_c01_autogen, what="generated struct families: values with nil / non-nil / mixed embedded pointers marshalled and unmarshalled (CBOR, JSON) through autogenerated struct maps, field-wise oracle", **_AUTOGEN_COMMON)))
 
 
